@@ -5,6 +5,7 @@ import (
 	"io"
 	"net"
 	"sync"
+	"sync/atomic"
 	"time"
 )
 
@@ -38,7 +39,11 @@ type StreamEnd struct {
 	la, ra Addr
 	// HandshakeFn, if set, makes the end implement HandshakeContext (TLS-like listeners).
 	HandshakeFn func(ctx context.Context) error
+	failWrites  atomic.Int32
 }
+
+// FailNextWrites makes the next n writes at this end fail with an error (nothing is written).
+func (c *StreamEnd) FailNextWrites(n int) { c.failWrites.Store(int32(n)) }
 
 type StreamLink struct{ A, B *StreamEnd }
 
@@ -107,6 +112,10 @@ func (c *StreamEnd) Read(b []byte) (int, error) {
 }
 
 func (c *StreamEnd) Write(b []byte) (int, error) {
+	if c.failWrites.Load() > 0 {
+		c.failWrites.Add(-1)
+		return 0, io.ErrShortWrite
+	}
 	h := c.w
 	h.mu.Lock()
 	defer h.mu.Unlock()
